@@ -216,6 +216,7 @@ class Interp:
         self.opaque = set(self.hooks.get("opaque", ()))   # quals treated as opaque calls
         self.unknown_calls = []
         self.facts = []           # (p, q): p implies q (raise inside a try body => that try's exception flag)
+        self.fact_seq = []        # number of events recorded when the fact was added: it speaks about later events only
         self.writelog = None
         self.warnings = []
 
@@ -425,7 +426,16 @@ class Interp:
                 if any(g == TRUE and not lc for _, _, g, lc in o.entries):
                     return TRUE
                 return Op("truthy", v)
+            if isinstance(o, Instance):
+                # a class that defines __bool__ or __len__ decides its own truth value
+                if isinstance(self.class_attr(o.cls, "__bool__"), FuncV):
+                    return self.truth(self.call_method(v, "__bool__", [], {}, getattr(self, "cur_node", None)))
+                if isinstance(self.class_attr(o.cls, "__len__"), FuncV):
+                    ln = self.call_method(v, "__len__", [], {}, getattr(self, "cur_node", None))
+                    return not_(compare("eq", ln, Const(0)))
             return TRUE
+        if isinstance(v, Op) and v.op == "flagval":
+            return not_(compare("eq", v.args[1], Const(0)))
         t = truthy(v)
         if t is None:
             if isinstance(v, Ite):
@@ -603,6 +613,8 @@ class Interp:
                     return FuncV(cv.info, obj)
                 return cv
             return Undef(name)
+        if isinstance(obj, Op) and obj.op == "flagval" and name == "value":
+            return obj.args[1]
         if isinstance(obj, Op) and obj.op == "enum":
             if name == "value":
                 return obj.args[2]
@@ -775,6 +787,10 @@ class _ExprMixin:
                         return self.alloc(ListObj(self.born_now(), list(lx.items) * max(y.v, 0), lx.typ))
                     # [..] * n with a symbolic count: max(n, 0) copies of the known elements
                     return self.alloc(ListObj(self.born_now(), [("v", Op("splat", Op("listrep", x, y)), TRUE)], lx.typ))
+        if op in ("bitand", "bitor", "bitxor"):
+            fa, fb = self.flag_parts(a), self.flag_parts(b)
+            if fa is not None and fb is not None and fa[0] == fb[0]:
+                return Op("flagval", fa[0], binop(op, fa[1], fb[1]))
         return binop(op, a, b)
 
     def tuple_to_term(self, v):
@@ -880,6 +896,14 @@ class _ExprMixin:
                 a.args[0] == b.args[0]:
             same = a.args[1] == b.args[1]        # members of one enumeration are singletons
             return Const(same if op in ("is", "eq") else not same)
+        fa, fb = self.flag_parts(a), self.flag_parts(b)
+        if fa is not None and fb is not None and fa[0] == fb[0]:
+            if op in ("in", "notin"):
+                r = compare("eq", binop("bitand", fb[1], fa[1]), fa[1])     # every bit of a is set in b
+                return r if op == "in" else not_(r)
+            if op in ("eq", "ne", "is", "isnot"):
+                r = compare("eq", fa[1], fb[1])
+                return r if op in ("eq", "is") else not_(r)
         a, b = self.int_enum_value(a), self.int_enum_value(b)
         if op in ("is", "isnot") and (a == NONE or b == NONE):
             other = b if a == NONE else a
@@ -1699,7 +1723,48 @@ class _CallMixin:
         self.unknown_calls.append((f, node))
         return Op("call", f, *args)
 
+    def flag_parts(self, t):
+        """(class, integer value) of a member / combination of an enum.Flag class, else None"""
+        if isinstance(t, Op) and t.op == "flagval":
+            return t.args[0], t.args[1]
+        if isinstance(t, Op) and t.op == "enum" and len(t.args) == 3 and is_const(t.args[0], str):
+            try:
+                ci = self.prog.cls(t.args[0].v)
+            except Exception:
+                return None
+            if any(b.split(".")[-1] in ("Flag", "IntFlag") for b in ci.bases):
+                return t.args[0], t.args[2]
+        return None
+
     def instantiate(self, cinfo, args, kwargs, node):
+        if cinfo.is_enum and len(args) == 1 and not kwargs and any(b.split(".")[-1] in ("Flag", "IntFlag") for b in cinfo.bases):
+            # Flag(value): any combination of the defined bits; a plain Flag refuses other bits with ValueError (the STRICT
+            # boundary, python >= 3.11), an IntFlag keeps them
+            mask, known = 0, True
+            for st in cinfo.node.body:
+                if isinstance(st, ast.Assign) and len(st.targets) == 1 and isinstance(st.targets[0], ast.Name):
+                    mv = self.class_attr(cinfo, st.targets[0].id)
+                    if mv is not None and not isinstance(mv, FuncV):
+                        if is_int(mv):
+                            mask |= mv.v
+                        else:
+                            known = False
+            if known:
+                arg = self.simp(args[0])
+                fp = self.flag_parts(arg)
+                if fp is not None:
+                    arg = fp[1]
+                if any(b.split(".")[-1] == "Flag" for b in cinfo.bases):
+                    stray = not_(compare("eq", binop("bitand", arg, Const(~mask)), Const(0)))
+                    if stray != FALSE:
+                        self.guard.append(stray)
+                        try:
+                            if self.feasible():
+                                self.event("raise", (Op("call:ValueError", arg),), node)
+                                self.note_raise(self.local_guard(state=True))
+                        finally:
+                            self.guard.pop()
+                return Op("flagval", Const(cinfo.qual), arg)
         if cinfo.is_enum and len(args) == 1 and not kwargs:
             # Enum(value): the member with that value; ValueError when there is none
             ns = self.class_ns(cinfo) if hasattr(self, "class_ns") else None
@@ -2197,6 +2262,7 @@ class _StmtMixin:
             if excs:
                 full = and_(*(self.cur_guard_list()[:fr.base_guard_len] + [g]))
                 self.facts.append((full, excs[-1]))
+                self.fact_seq.append(len(self.events))
         else:
             if not hasattr(fr, "raised"):
                 fr.raised = []
@@ -2950,6 +3016,8 @@ class _ExtMixin:
                 return Op("len", v)
         if isinstance(v, Ref):
             o = self.heap[v.oid]
+            if isinstance(o, Instance) and isinstance(self.class_attr(o.cls, "__len__"), FuncV):
+                return self.call_method(v, "__len__", [], {}, n)
             if isinstance(o, ListObj) and o.prev_iter is not None:
                 Lc = o.prev_iter
                 gr = getattr(Lc, "list_growth", {}).get(v.oid)
